@@ -446,6 +446,18 @@ def do_key_object_reuse(hub, U, letters, rng):
     i1 = U[l1].items[int(rng.integers(0, len(U[l1].items)))]
     some1 = [U[l1].items[int(j)] for j in rng.permutation(len(U[l1].items))[: max(1, len(U[l1].items) - 1)]]
     keys = [{U[l0].name: i0}, {U[l0].name: i0, U[l1].name: i1}, {l0: i0, U[l1].name: some1}, {U[l1].name: some1}, {l0: i0}, {U[l1].name: i1, l0: i0}]
+    # z: the same letters and names as x, every dimension listing its items in ANOTHER ORDER (a subset Dimension used as key on x and
+    # then on z addresses the same LABELS, which stand at other positions there)
+    z = None
+    try:
+        dims_z = fd.DimensionSet(dim_list=[fd.Dimension(letter=l, name=U[l].name, items=list(U[l].items)[1:] + [U[l].items[0]], dtype=U[l].dtype) for l in letters])
+        z = fd.FlodymArray(dims=dims_z, values=gen.values_one("dyadic", rng, shp) + 2048.0)
+        for l_s in {l0, l1}:
+            if len(U[l_s].items) >= 2:
+                keys.append({l_s: subset_dim(fd, U, l_s, rng, "rand")})
+        keys.append({l1: list(some1)})
+    except Exception:
+        z = None
 
     def outcome(arr, key, write):
         try:
@@ -461,6 +473,8 @@ def do_key_object_reuse(hub, U, letters, rng):
     for k in keys:
         fresh = _copy.deepcopy(k)
         order = [x, y, x] if rng.random() < 0.5 else [y, x, y]
+        if z is not None and any(isinstance(v_, (fd.Dimension, list)) for v_ in k.values()):
+            order = [x, z, x] if rng.random() < 0.5 else [z, x, z]
         for n_use, arr in enumerate(order):
             for write in (False, True):
                 with hub.pause():
